@@ -73,9 +73,70 @@ async def scenario(api, when):
         await fetcher.close()
 
 
+async def failing_neighbour(kind, order, max_records):
+    """getmany() over two buffered partitions: `good` holds three valid records, `poisoned` a batch that cannot be handed
+    out (kind 'crc': a flipped bit with check_crcs on; 'deser': the user's value deserializer raises). Whatever getmany()
+    does - return, raise, raise later - a partition's position may only pass records the application was given."""
+    from aiokafka.client import AIOKafkaClient
+    from aiokafka.consumer.fetcher import Fetcher, FetchResult, PartitionRecords
+    from aiokafka.consumer.subscription_state import SubscriptionState
+    from aiokafka.record.memory_records import MemoryRecords
+    from aiokafka.structs import TopicPartition
+    client = AIOKafkaClient(bootstrap_servers=[])
+    subs = SubscriptionState()
+    subs.subscribe({"t"})
+    good, poisoned = TopicPartition("t", 0), TopicPartition("t", 1)
+    subs.assign_from_subscribed([good, poisoned])
+    assignment = subs.subscription.assignment
+    subs.seek(good, 0)
+    subs.seek(poisoned, 0)
+    fetcher = Fetcher(client, subs)
+    fetcher._get_actions_per_node = lambda a: ([], {}, None, False, [])          # the fetch routine stays idle
+    try:
+        raw = _batch(0, 3)
+        flipped = bytearray(raw)
+        flipped[-1] ^= 0x55
+
+        def boom(_):
+            raise ValueError("value deserializer failed")
+        pg = PartitionRecords(good, MemoryRecords(raw), [], 0, None, None, True, 0)
+        if kind == "crc":
+            pp = PartitionRecords(poisoned, MemoryRecords(bytes(flipped)), [], 0, None, None, True, 0)
+        else:
+            pp = PartitionRecords(poisoned, MemoryRecords(raw), [], 0, None, boom, True, 0)
+        for tp, pr in ((good, pg), (poisoned, pp)) if order == "good-first" else ((poisoned, pp), (good, pg)):
+            fetcher._records[tp] = FetchResult(tp, partition_records=pr, assignment=assignment, backoff=0)
+        given = {good: [], poisoned: []}
+        errors = []
+        for _ in range(4):
+            try:
+                res = await fetcher.fetched_records([], timeout=0, max_records=max_records)
+            except Exception as e:
+                errors.append(type(e).__name__)
+                continue
+            for tp, msgs in res.items():
+                given[tp].extend(m.offset for m in msgs)
+        for tp in (good, poisoned):
+            pos = assignment.state_value(tp).position
+            missing = [o for o in range(pos) if o not in given[tp]]
+            if missing:
+                return ("getmany(max_records=%r) with %s buffered %s and the other partition failing with %s: position of %s is %d "
+                        "but records %r were never returned (returned %r, raised %r)"
+                        % (max_records, tp, order, kind, tp, pos, missing, given[tp], errors))
+        return None
+    finally:
+        await fetcher.close()
+
+
 def sweep():
     async def main():
         out = []
+        for kind in ("crc", "deser"):
+            for order in ("good-first", "poisoned-first"):
+                for max_records in (None, 2, 10):
+                    r = await failing_neighbour(kind, order, max_records)
+                    if r:
+                        out.append(r)
         for api in ("getone", "getmany"):
             for when in ("parked", "after"):
                 r = await scenario(api, when)
